@@ -596,6 +596,19 @@ def py_model(eng, st, name, A, n):
         return [(st, PyObj(z3.Const('py_' + name, Ref), stable=True))]
     if name in ('Py_TYPE', 'of', 'handle_of'):
         return [(st, PyObj(M.py_type(P(0).ref), stable=True))]
+    if name == 'Py_IS_TYPE' and len(A) == 2:
+        # external contract (A-CAPI): exact type test, no Python code runs
+        return [(st, z3.If(M.py_type(P(0).ref) == P(1).ref, z3.IntVal(1), z3.IntVal(0)))]
+    if name in ('PyDict_Values', 'PyDict_Items'):
+        # external contract (A-CAPI): like PyDict_Keys - the *storage* order of the dict, which is not the order of an
+        # OrderedDict; the same obligation therefore applies
+        d = P(0)
+        hook = getattr(eng.cur_contract, 'on_pydict_keys', None)
+        ok = hook(eng, st, d, n) if hook else z3.BoolVal(False)
+        eng.oblige(st, 'III', f'{name}:never-applied-to-an-OrderedDict-whose-own-order-differs-from-storage-order', ok, line)
+        r = fresh('dict_' + name[7:].lower(), Ref)
+        st.pc.append(z3.And(r != NULL, M.py_is_list(r)))
+        return [(st, PyObj(r, fresh=True))]
     return None
 
 
